@@ -143,8 +143,17 @@ def build_bay(case):
         setattr(spb, k, v)
     spb.out_num_cores = 1
     cuts = case['cuts']
-    for y1, y2 in zip(cuts[:-1], cuts[1:]):
-        spb.add_panel(y1=y1, y2=y2)
+    pp = case.get('panel_plyt')
+    if pp:
+        # skin strips of different thickness: the bay is defined in the uniform form (plyt, laminaprop; no per-ply lists) and every
+        # add_panel() call is given its own ply thickness
+        spb.plyts = []
+        spb.laminaprops = []
+    for k, (y1, y2) in enumerate(zip(cuts[:-1], cuts[1:])):
+        if pp:
+            spb.add_panel(y1=y1, y2=y2, plyt=L['plyts'][0] * pp[k % len(pp)])
+        else:
+            spb.add_panel(y1=y1, y2=y2)
     stiffs = []
     for sc in case['stiffeners']:
         ys = cuts[sc['cut']]
@@ -274,6 +283,16 @@ def check_solve(case, ctx):
             Ka[i, i] = ks[i] + (ks[i + 1] if i + 1 < na else 0.)
             if i + 1 < na:
                 Ka[i, i + 1] = Ka[i + 1, i] = -ks[i + 1]
+    elif case.get('structure') == 'saddle' and na >= 3:
+        # stiffness bordered by a Lagrange-multiplier row (a displacement constraint g.c = d): symmetric, regular, indefinite, with
+        # a zero on the diagonal of a row that is NOT null
+        Q, _ = np.linalg.qr(rs.normal(size=(na - 1, na - 1)))
+        ev = np.exp(rs.uniform(0., np.log(case['cond']), na - 1))
+        Ka = np.zeros((na, na))
+        Ka[:na - 1, :na - 1] = (Q * ev).dot(Q.T)
+        g = rs.normal(size=na - 1)
+        Ka[na - 1, :na - 1] = g
+        Ka[:na - 1, na - 1] = g
     else:
         Q, _ = np.linalg.qr(rs.normal(size=(na, na)))
         ev = np.exp(rs.uniform(0., np.log(case['cond']), na))
@@ -423,7 +442,7 @@ def _solve_strategy(draw, tier='quick'):
     size = draw(st.integers(2, 60 if tier == 'quick' else 300))
     return {'seed': draw(st.integers(0, 2 ** 31 - 1)), 'size': size, 'nulls': draw(st.booleans()),
             'nactive': draw(st.integers(1, size)), 'cond': draw(st.sampled_from([10., 1e3, 1e5])), 's': draw(gen.fl(-3., 3.)),
-            'structure': draw(st.sampled_from(['random', 'random', 'chain'])), 'kscale': draw(st.sampled_from([1., 1., 1e-12, 1e-6, 1e8]))}
+            'structure': draw(st.sampled_from(['random', 'random', 'chain', 'saddle'])), 'kscale': draw(st.sampled_from([1., 1., 1e-12, 1e-6, 1e8]))}
 
 
 @st.composite
